@@ -56,4 +56,8 @@ CLAIMED = {
    text="Complete enumeration of the stated grid: every index of [-3, size+3] and boundary/mid-slot instants of 200+ windows x 10 resolutions (incl. resolutions that do not divide a day) for the Scoreboard and Project conversion pairs against the algebraic laws, and every predicate pattern up to length 8 (quick) / 12 (thorough) x every query window x five minimum durations for collectIntervals against a reference run-length scan.",
    note="Runs in the configuration rebuilt from the current sources; windows longer than 3000 slots are sampled evenly plus both ends (stated in the rule); C13 carries the verdict to the pure fallbacks.",
    technique="exhaustive bounded enumeration against algebraic laws and a reference implementation"),
+ "C13": dict(
+   text="Differential testing of the two implementations in separate processes: pure-Python fallbacks (extensions blocked) versus extensions rebuilt from the current .pyx sources; exhaustive grids for the five accelerated functions (about a million argument points in the quick tier) and generated projects scheduled end to end with dates and the full float ledger compared exactly.",
+   note="The in-tree .so is only compared for a staleness note; verdicts come from sources (a .pyx edit is visible because it is recompiled, a fallback edit because the extensions are blocked). Trusts Cython/gcc present in the sandbox.",
+   technique="differential testing over exhaustively enumerated grids and Hypothesis-generated projects"),
 }
